@@ -5,7 +5,7 @@ package c15
 import "pgregory.net/rapid"
 
 func Gen(t *rapid.T) *Case {
-	c := &Case{Shape: rapid.IntRange(0, len(shapes)-1).Draw(t, "shape"), API: rapid.SampledFrom(apis).Draw(t, "api"), StoreFirst: rapid.Bool().Draw(t, "storeFirst")}
+	c := &Case{Shape: rapid.IntRange(0, len(shapes)-1).Draw(t, "shape"), API: rapid.SampledFrom(apis).Draw(t, "api"), StoreFirst: rapid.Bool().Draw(t, "storeFirst"), Obs: rapid.Bool().Draw(t, "obs")}
 	n := rapid.IntRange(1, 6).Draw(t, "n")
 	seen := map[int]bool{}
 	for len(c.IDs) < n {
@@ -29,9 +29,9 @@ func EnumProduct(visit func(*Case)) {
 	for s := range shapes {
 		for _, api := range apis {
 			for _, sf := range []bool{false, true} {
-				visit(&Case{Shape: s, API: api, IDs: []int{3, 1, 2}, Strings: []string{"x", "é"}, Noise: []int{(s + 1) % len(shapes), (s + 4) % len(shapes)}, StoreFirst: sf})
+				visit(&Case{Shape: s, API: api, IDs: []int{3, 1, 2}, Strings: []string{"x", "é"}, Noise: []int{(s + 1) % len(shapes), (s + 4) % len(shapes)}, StoreFirst: sf, Obs: sf})
 				// with the sibling shape (index ^ 1: same struct or same name family in the other form) as noise
-				visit(&Case{Shape: s, API: api, IDs: []int{7, 8}, Strings: []string{"y"}, Noise: []int{s ^ 1, s ^ 1}, StoreFirst: sf})
+				visit(&Case{Shape: s, API: api, IDs: []int{7, 8}, Strings: []string{"y"}, Noise: []int{s ^ 1, s ^ 1}, StoreFirst: sf, Obs: !sf})
 			}
 		}
 	}
